@@ -511,7 +511,16 @@ def main():
         changed.append("Registry")
     if write_if_changed(os.path.join(out_dir, "Consts.lean"), con):
         changed.append("Consts")
-    info = {"changed": changed, "registry": reg_info, "consts": con_info}
+    dec_notes = {}
+    try:
+        sys.path.insert(0, HERE)
+        import extract_decisions
+        dec, dec_notes = extract_decisions.translate_all(os.environ.get("INDIPY_REPO", "/repo"))
+        if write_if_changed(os.path.join(out_dir, "Decisions.lean"), dec):
+            changed.append("Decisions")
+    except Exception as e:  # noqa  -- a translator limitation never takes the run down: every site falls back to `none`
+        dec_notes = {"error": "%s: %s" % (type(e).__name__, e)}
+    info = {"changed": changed, "registry": reg_info, "consts": con_info, "decisions": dec_notes}
     print(json.dumps(info))
 
 
